@@ -408,6 +408,13 @@ class Zeroconf(QuietLogger):
                 return
             self.async_send(self.generate_service_broadcast(info, ttl, broadcast_addresses))
 
+    async def _async_send_repeatedly(self, out: DNSOutgoing, interval: int) -> None:
+        """Send the same packet _REGISTER_BROADCASTS times at intervals."""
+        for i in range(_REGISTER_BROADCASTS):
+            if i != 0:
+                await asyncio.sleep(millis_to_seconds(interval))
+            self.async_send(out)
+
     def generate_service_broadcast(
         self,
         info: ServiceInfo,
@@ -483,9 +490,10 @@ class Zeroconf(QuietLogger):
             withdrawn.extend(info.get_address_and_nsec_records())
         self.out_queue.async_remove_answers(withdrawn)
         self.out_delay_queue.async_remove_answers(withdrawn)
-        return asyncio.ensure_future(
-            self._async_broadcast_service(info, _UNREGISTER_TIME, 0, broadcast_addresses)
-        )
+        # Build the goodbye now: the caller may hand the same ServiceInfo to
+        # async_register_service (which can rename it) before the task takes its first step.
+        goodbye = self.generate_service_broadcast(info, 0, broadcast_addresses)
+        return asyncio.ensure_future(self._async_send_repeatedly(goodbye, _UNREGISTER_TIME))
 
     def generate_unregister_all_services(self) -> Optional[DNSOutgoing]:
         """Generate a DNSOutgoing goodbye for all services and remove them from the registry."""
